@@ -17,10 +17,10 @@ import Stun.Proofs.ClientHistory
 namespace Stun.C10L2
 open Stun Stun.Client Stun.ClientProofs
 
-theorem callback_l1 (k : Client2) (hb : k.blockIds = []) (id : TID) (e : CEv) :
+theorem callback_l1 (k : Client2) (hb : k.blockIds = []) (ha : k.blockAgentIds = []) (id : TID) (e : CEv) :
     k.callback id e = ((k.lift (k.c.callback id e)).1, (k.lift (k.c.callback id e)).2, false) := by
   unfold Client2.callback
-  simp only [hb, List.contains_nil, Bool.false_eq_true, if_false]
+  simp only [hb, ha, List.contains_nil, Bool.false_eq_true, if_false]
   unfold Client2.lift Client.callback
   split
   · rfl
@@ -28,47 +28,48 @@ theorem callback_l1 (k : Client2) (hb : k.blockIds = []) (id : TID) (e : CEv) :
     · rfl
     · split <;> rfl
 
-theorem callbacks_l1 (k : Client2) (hb : k.blockIds = []) (evs : List (TID × CEv)) :
+theorem callbacks_l1 (k : Client2) (hb : k.blockIds = []) (ha : k.blockAgentIds = []) (evs : List (TID × CEv)) :
     k.callbacks evs = k.lift (k.c.callbacks evs) := by
   induction evs generalizing k with
   | nil => rfl
   | cons p r ih =>
     obtain ⟨id, e⟩ := p
-    simp only [Client2.callbacks, Client.callbacks, callback_l1 k hb]
+    simp only [Client2.callbacks, Client.callbacks, callback_l1 k hb ha]
     have hb' : (k.lift (k.c.callback id e)).1.blockIds = [] := hb
-    rw [ih _ hb']
+    have ha' : (k.lift (k.c.callback id e)).1.blockAgentIds = [] := ha
+    rw [ih _ hb' ha']
     rfl
 
-theorem tick_l1 (k : Client2) (hb : k.blockIds = []) (t : Nat) : k.tick t = k.lift (k.c.tick t) := by
+theorem tick_l1 (k : Client2) (hb : k.blockIds = []) (ha : k.blockAgentIds = []) (t : Nat) : k.tick t = k.lift (k.c.tick t) := by
   unfold Client2.tick Client.tick
   simp only
   rcases k.c.agent.collect t with ⟨a, e, evs⟩
-  exact callbacks_l1 (⟨{ k.c with agent := a, now := t }, k.blockIds, k.susp⟩ : Client2) hb
+  exact callbacks_l1 (⟨{ k.c with agent := a, now := t }, k.blockIds, k.blockAgentIds, k.susp⟩ : Client2) hb ha
     (evs.map (fun (e : AEvent) => (e.id, CEv.timeout)))
 
 /-- with nothing scripted to block, one L2 step is the L1 step (and nothing becomes blocked) -/
-theorem step2_l1 (k : Client2) (hb : k.blockIds = []) (op : COp) :
+theorem step2_l1 (k : Client2) (hb : k.blockIds = []) (ha : k.blockAgentIds = []) (op : COp) :
     (k.step (.l1 op)).1.c = (k.c.step op).1 ∧ (k.step (.l1 op)).2 = (k.c.step op).2 ∧
-    (k.step (.l1 op)).1.blockIds = [] ∧ (k.step (.l1 op)).1.susp = k.susp := by
+    (k.step (.l1 op)).1.blockIds = [] ∧ (k.step (.l1 op)).1.blockAgentIds = [] ∧ (k.step (.l1 op)).1.susp = k.susp := by
   cases op with
   | tick t =>
-    simp only [Client2.step, Client.step, tick_l1 k hb]
-    exact ⟨rfl, rfl, hb, rfl⟩
-  | start id raw h => simp [Client2.step, hb]
-  | deliver d => simp [Client2.step, hb]
-  | clock t => simp [Client2.step, hb]
-  | failWrite id => simp [Client2.step, hb]
-  | setRTO r => simp [Client2.step, hb]
-  | close => simp [Client2.step, hb]
+    simp only [Client2.step, Client.step, tick_l1 k hb ha]
+    exact ⟨rfl, rfl, hb, ha, rfl⟩
+  | start id raw h => simp [Client2.step, hb, ha]
+  | deliver d => simp [Client2.step, hb, ha]
+  | clock t => simp [Client2.step, hb, ha]
+  | failWrite id => simp [Client2.step, hb, ha]
+  | setRTO r => simp [Client2.step, hb, ha]
+  | close => simp [Client2.step, hb, ha]
 
 /-- whole histories: without blocking writes the L2 outputs are the L1 outputs -/
-theorem run2_l1 (k : Client2) (hb : k.blockIds = []) (ops : List COp) :
+theorem run2_l1 (k : Client2) (hb : k.blockIds = []) (ha : k.blockAgentIds = []) (ops : List COp) :
     (k.run (ops.map .l1)).2 = allOuts (run k.c ops).2 ∧ (k.run (ops.map .l1)).1.c = (run k.c ops).1 := by
   induction ops generalizing k with
   | nil => exact ⟨rfl, rfl⟩
   | cons op r ih =>
-    obtain ⟨s1, s2, s3, _⟩ := step2_l1 k hb op
-    obtain ⟨i1, i2⟩ := ih (k.step (.l1 op)).1 s3
+    obtain ⟨s1, s2, s3, s4, _⟩ := step2_l1 k hb ha op
+    obtain ⟨i1, i2⟩ := ih (k.step (.l1 op)).1 s3 s4
     simp only [List.map_cons, Client2.run, run, allOuts, List.flatMap_cons]
     rw [s1] at i1 i2
     refine ⟨?_, i2⟩
@@ -120,6 +121,36 @@ theorem f12_start_error_after_handler_ran :
 theorem start_blocked_failure_alone :
     (({} : Client2).run [.startBlocked id1 req1 1, .release false, .l1 (.tick 900000000), .l1 .close]).2 =
       [.write req1 (some 1), .connClose] := by
+  decide
+
+/-- the third suspension point: the collector is inside `ClientAgent.Start` of a retransmission (the transaction is
+    registered with the client again, not yet with the agent); the response completes it; `Start` then fails. The
+    client must not finish the transaction a second time (defect K1b on the pinned tree: same double `Put` as K1). -/
+theorem k1b_history :
+    (({} : Client2).run [.l1 (.start id1 req1 (some 1)), .blockAgent id1, .l1 (.tick 300000001),
+      .deliverDecoded id1 resp1, .release false]).2 =
+      [.write req1 (some 1), .call 1 id1 (.msg resp1)] := by
+  decide
+
+/-- with nothing in between, a failing agent `Start` is the L1 behaviour: the handler gets the agent's error once -/
+theorem agent_start_failure_alone :
+    (({} : Client2).run [.l1 (.start id1 req1 (some 1)), .blockAgent id1, .l1 (.tick 300000001), .release false]).2 =
+      [.write req1 (some 1), .call 1 id1 .agentClosed] := by
+  decide
+
+/-- … and a succeeding one is the L1 retransmission -/
+theorem agent_start_ok_alone :
+    (({} : Client2).run [.l1 (.start id1 req1 (some 1)), .blockAgent id1, .l1 (.tick 300000001), .release true]).2 =
+      [.write req1 (some 1), .write req1 (some 1)] := by
+  decide
+
+/-- F14 (known finding, C11): the response is processed while the collector is inside `ClientAgent.Start`; the
+    retransmission then still registers the id with the agent and writes the request once more — a write after the
+    transaction has completed -/
+theorem f14_write_after_completion :
+    (({} : Client2).run [.l1 (.start id1 req1 (some 1)), .blockAgent id1, .l1 (.tick 300000001),
+      .deliverDecoded id1 resp1, .release true]).2 =
+      [.write req1 (some 1), .call 1 id1 (.msg resp1), .write req1 (some 1)] := by
   decide
 
 end Stun.C10L2
